@@ -7,33 +7,26 @@ import NV.C20.LemmasNest
 
 namespace NV.C20
 
-/-- like `Frame` but for every registered object -/
-def AllKeep (P Q : List Obj) : Prop :=
-  ∀ x X, getO P x = some X → ∃ X', getO Q x = some X' ∧ X'.euid = X.euid
+def GoodRun (bb : Option Name) (run : Run) : Prop :=
+  ∀ w a op, Inv w →
+    Inv (run w a op).1 ∧ Chain bb w.objs (run w a op).2 (run w a op).1.objs ∧ Keeps w.objs (run w a op).1.objs
 
-theorem AllKeep.refl (P : List Obj) : AllKeep P P := fun _ X h => ⟨X, h, rfl⟩
+theorem goodRun_skip (bb : Option Name) : GoodRun bb (fun w _ _ => (w, [])) :=
+  fun w _ _ hw => ⟨hw, rfl, Keeps.refl w.objs⟩
 
-theorem AllKeep.frame {P Q : List Obj} (h : AllKeep P Q) (z : Oid) : Frame z P Q := fun x X _ hX => h x X hX
+theorem goodRun_of_exec {bb : Option Name} {f : Bool → World → Oid → Op → World × List StepRec} (hf : GoodExec bb f) :
+    GoodRun bb (f true) :=
+  fun w a op hw => ⟨(hf true w a op hw).1, (hf true w a op hw).2.1, (hf true w a op hw).2.2 rfl⟩
 
-theorem AllKeep.setO_fresh {P : List Obj} {o : Obj} (h : getO P o.oid = none) : AllKeep P (setO P o) := by
-  intro x X hX
-  have hne : ¬ o.oid = x := by
-    intro e; rw [e] at h; rw [h] at hX; cases hX
-  exact ⟨X, by simp [getO_setO, hne, hX], rfl⟩
-
-theorem AllKeep.through_fresh {o : Oid} {P P1 Q : List Obj} (hfresh : getO P o = none) (h1 : AllKeep P P1)
-    (h2 : Frame o P1 Q) : AllKeep P Q := by
-  intro x X hX
-  have hxo : x ≠ o := by
-    intro e; rw [e] at hX; rw [hfresh] at hX; cases hX
-  obtain ⟨X1, h3, h4⟩ := h1 x X hX
-  obtain ⟨X2, h5, h6⟩ := h2 x X1 hxo h3
-  exact ⟨X2, h5, h6.trans h4⟩
+theorem seg_of_recOf {bb : Option Name} {P : List Obj} {w1 : World} {a : Oid} {op : Op}
+    {vs : Option (Oid × Name × Ans)} {cs : List Creation} {res : Res} (first : Bool)
+    (h : StepOK bb P w1 (recOf w1 a op vs cs res)) : StepOK bb P w1 (seg w1 a op vs cs (some res) first) :=
+  StepOK_congr h rfl rfl rfl rfl rfl rfl rfl (Or.inl rfl)
 
 theorem single_good {bb : Option Name} {w : World} (a : Oid) (op : Op)
     (x : World × List Creation × Option (Oid × Name × Ans) × Res) (hx : StepOK bb w.objs x.1 (recOfR a op x)) :
     Inv (single a op x).1 ∧ Chain bb w.objs (single a op x).2 (single a op x).1.objs :=
-  ⟨hx.inv, Chain.single hx⟩
+  ⟨hx.inv, Chain.single (seg_of_recOf true hx)⟩
 
 /-- result segment of an op whose create() scripts have finished: nothing changes -/
 theorem final_seg_ok {bb : Option Name} {w1 : World} (hw : Inv w1) (a : Oid) (op : Op) (res : Res)
@@ -41,25 +34,25 @@ theorem final_seg_ok {bb : Option Name} {w1 : World} (hw : Inv w1) (a : Oid) (op
     StepOK bb w1.objs w1 (seg w1 a op none [] (some res) false) := by
   have h : StepOK bb w1.objs w1 (recOf w1 a op none [] res) := by
     apply stepOK_same hw w1 rfl
-    · exact noEuid_of_all (by simp [recOf])
+    · exact noEuid_of_all (by simp [recOf]) rfl
     · cases op <;> simp [exportClause, recOf]
       exact absurd rfl (hop _)
     · cases op <;> simp [askedClause, recOf]
       exact absurd rfl (hop2 _)
-  exact StepOK_congr h rfl rfl rfl rfl rfl rfl (Or.inl rfl)
+  exact StepOK_congr h rfl rfl rfl rfl rfl rfl rfl (Or.inl rfl)
 
 /-- a refused op (`nobj`) of an existing or missing actor -/
 theorem nobj_seg_ok {bb : Option Name} {w : World} (hw : Inv w) (a : Oid) (op : Op)
     (hop : ∀ t, op ≠ .exportUid t) (hop2 : ∀ s, op ≠ .seteuidStr s) :
     StepOK bb w.objs w (seg w a op none [] (some .nobj) true) := by
   have h := final_seg_ok (bb := bb) hw a op .nobj hop hop2
-  exact StepOK_congr h rfl rfl rfl rfl rfl rfl (Or.inl rfl)
+  exact StepOK_congr h rfl rfl rfl rfl rfl rfl rfl (Or.inl rfl)
 
 /-- creation segment: the op's record without its result -/
 theorem creation_seg_ok {bb : Option Name} {P : List Obj} {x1 : World} {a : Oid} {op : Op} {cs : List Creation}
     {res : Res} (first : Bool) (hx : StepOK bb P x1 (recOf x1 a op none cs res)) (hop : ∀ t, op ≠ .exportUid t) :
     StepOK bb P x1 (seg x1 a op none cs none first) :=
-  StepOK_congr hx rfl rfl rfl rfl rfl rfl (Or.inr hop)
+  StepOK_congr hx rfl rfl rfl rfl rfl rfl rfl (Or.inr hop)
 
 /-! ### load -/
 
@@ -109,108 +102,176 @@ theorem doLoad_facts (cfg : Cfg) (pol : Policy) (i : Nat) (w : World) (A : Obj) 
         · exact Or.inl ⟨h1, by simp [createdNow, h2]⟩
         · exact Or.inr ⟨o, by rw [h1]; exact hfresh, h2, Or.inr (by simp [createdNow, h3, h4])⟩
 
-theorem execLoad_good {cfg : Cfg} {pol : Policy} {i : Nat} {sub : Sub} (hsub : GoodSub cfg.bb sub) {w : World}
-    (hw : Inv w) {a : Oid} {A : Obj} (hA : getO w.objs a = some A) (p : Path) :
-    Inv (execLoad cfg pol i sub w a A p).1 ∧
-    Chain cfg.bb w.objs (execLoad cfg pol i sub w a A p).2 (execLoad cfg pol i sub w a A p).1.objs ∧
-    Frame a w.objs (execLoad cfg pol i sub w a A p).1.objs := by
+
+/-- result / refusal segment of an op: nothing registered changes -/
+theorem plain_seg_ok {bb : Option Name} {w : World} (hw : Inv w) (a : Oid) (op : Op) (res : Res) (first : Bool)
+    (hop : ∀ t, op ≠ .exportUid t) (hop2 : ∀ s, op ≠ .seteuidStr s) :
+    StepOK bb w.objs w (seg w a op none [] (some res) first) :=
+  StepOK_congr (final_seg_ok (bb := bb) hw a op res hop hop2) rfl rfl rfl rfl rfl rfl rfl (Or.inl rfl)
+
+/-- like `plain_seg_ok` when only unregistered bookkeeping of the world differs -/
+theorem plain_seg_ok' {bb : Option Name} {w w' : World} (hw : Inv w) (hobjs : w'.objs = w.objs) (a : Oid) (op : Op)
+    (res : Res) (first : Bool) (hop : ∀ t, op ≠ .exportUid t) (hop2 : ∀ s, op ≠ .seteuidStr s) :
+    StepOK bb w.objs w' (seg w' a op none [] (some res) first) := by
+  have h := plain_seg_ok (bb := bb) (Inv_same hw w' hobjs) a op res first hop hop2
+  rw [hobjs] at h
+  exact h
+
+/-- segment in which compile_object was asked, for an actor that passed the euid test -/
+theorem co_seg_ok {bb : Option Name} {w w1 : World} (hw : Inv w) (hobjs : w1.objs = w.objs) {a : Oid} {A : Obj}
+    (hA : getO w.objs a = some A) (hguard : ¬ (a ≠ masterOid ∧ A.euid = none)) (op : Op) (first : Bool)
+    (x : String × CoAns) (hop : ∀ t, op ≠ .exportUid t) (hop2 : ∀ s, op ≠ .seteuidStr s) :
+    StepOK bb w.objs w1 (segCo w1 a op first x) := by
+  have h0 : StepOK bb w.objs w1 (seg w1 a op none [] (some .nobj) first) := plain_seg_ok' hw hobjs a op _ first hop hop2
+  have h1 : StepOK bb w.objs w1 (seg w1 a op none [] none first) :=
+    StepOK_congr h0 rfl rfl rfl rfl rfl rfl rfl (Or.inr hop)
+  exact StepOK_co h1 hA hguard x
+
+/-! ### virtual objects -/
+
+theorem virtCore_good {bb : Option Name} {pol : Policy} {i : Nat} {run : Run} (hrun : GoodRun bb run) {w : World}
+    (hw : Inv w) {a : Oid} {A : Obj} (hA : getO w.objs a = some A) (hguard : ¬ (a ≠ masterOid ∧ A.euid = none))
+    (op : Op) (first : Bool) (p : Path) (asClone : Bool)
+    (hop : ∀ t, op ≠ .exportUid t) (hop2 : ∀ s, op ≠ .seteuidStr s) :
+    Inv (virtCore pol i run w a op first p asClone).1 ∧
+    Chain bb w.objs (virtCore pol i run w a op first p asClone).2.1 (virtCore pol i run w a op first p asClone).1.objs ∧
+    Keeps w.objs (virtCore pol i run w a op first p asClone).1.objs := by
+  unfold virtCore
+  cases hco : pol.co i p.name with
+  | silent => exact ⟨hw, rfl, Keeps.refl _⟩
+  | none => exact ⟨hw, Chain.single (co_seg_ok hw rfl hA hguard op first _ hop hop2), Keeps.refl _⟩
+  | nonobj n => exact ⟨hw, Chain.single (co_seg_ok hw rfl hA hguard op first _ hop hop2), Keeps.refl _⟩
+  | err => exact ⟨hw, Chain.single (co_seg_ok hw rfl hA hguard op first _ hop hop2), Keeps.refl _⟩
+  | tmpl t =>
+    simp only
+    have hw1 : Inv { w with vSeq := w.vSeq + 1 } := Inv_same hw _ rfl
+    obtain ⟨h1, h2, h3⟩ := hrun { w with vSeq := w.vSeq + 1 } masterOid (.clone ("v" ++ toString (w.vSeq + 1)) t) hw1
+    have hs := co_seg_ok (bb := bb) (w1 := { w with vSeq := w.vSeq + 1 }) hw rfl hA hguard op first (p.name, .tmpl t) hop hop2
+    split
+    · exact ⟨Inv_same h1 _ rfl, Chain.cons hs h2, h3⟩
+    · exact ⟨h1, Chain.cons hs h2, h3⟩
+
+theorem needsCompile_guard {w : World} {A : Obj} {p : Path} (h : needsCompile w A p = true) :
+    ¬ (A.oid ≠ masterOid ∧ A.euid = none) := by
+  unfold needsCompile at h
+  simp only [decide_eq_true_eq] at h
+  exact h.2.2.1
+
+theorem keeps_doLoad (cfg : Cfg) (pol : Policy) (i : Nat) (w : World) (A : Obj) (p : Path) :
+    Keeps w.objs (doLoad cfg pol i w A p).1.objs := by
+  rcases (doLoad_facts cfg pol i w A p).2 with ⟨h1, _⟩ | ⟨o, _, h1, _⟩
+  · exact Keeps.of_eq h1
+  · rw [h1]; exact Keeps.setO _ _
+
+theorem execLoad_good {cfg : Cfg} {pol : Policy} {i : Nat} {run : Run} {sub : Sub} (hrun : GoodRun cfg.bb run)
+    (hsub : GoodSub cfg.bb sub) {w : World} (hw : Inv w) {a : Oid} {A : Obj} (hA : getO w.objs a = some A) (p : Path) :
+    Inv (execLoad cfg pol i run sub w a A p).1 ∧
+    Chain cfg.bb w.objs (execLoad cfg pol i run sub w a A p).2 (execLoad cfg pol i run sub w a A p).1.objs ∧
+    Keeps w.objs (execLoad cfg pol i run sub w a A p).1.objs := by
+  have hopx : ∀ t, Op.load p ≠ .exportUid t := by intro t h; cases h
+  have hops : ∀ t, Op.load p ≠ .seteuidStr t := by intro t h; cases h
+  by_cases hn : needsCompile w A p = true
+  · have hAo := (getO_some hA).2
+    have hguard : ¬ (a ≠ masterOid ∧ A.euid = none) := hAo ▸ needsCompile_guard hn
+    obtain ⟨h1, h2, h3⟩ := virtCore_good (pol := pol) (i := i) hrun hw hA hguard (.load p) true p false hopx hops
+    simp only [execLoad, hn, if_true]
+    exact ⟨h1, Chain.append h2 (Chain.single (plain_seg_ok h1 _ _ _ _ hopx hops)), h3⟩
+  have hn' : needsCompile w A p = false := by simpa using hn
   have hx := load_ok hw hA cfg pol i p
   obtain ⟨hvs, hcase⟩ := doLoad_facts cfg pol i w A p
   cases hc : createdNow (doLoad cfg pol i w A p).2.1 with
   | none =>
-    simp only [execLoad, hc]
-    refine ⟨hx.inv, Chain.single hx, ?_⟩
-    rcases hcase with ⟨h1, _⟩ | ⟨o, hfresh, h1, _⟩
-    · exact Frame.of_eq h1
-    · simp only [single]; rw [h1]; exact Frame.setO_fresh hfresh
+    simp only [execLoad, hn', Bool.false_eq_true, if_false, hc]
+    exact ⟨hx.inv, Chain.single (seg_of_recOf true hx), keeps_doLoad cfg pol i w A p⟩
   | some o =>
-    simp only [execLoad, hc]
-    rcases hcase with ⟨_, h2⟩ | ⟨o', hfresh, h1, h2⟩
-    · rw [hc] at h2; cases h2
-    · rcases h2 with h2 | h2
-      · rw [hc] at h2; cases h2
-      · rw [hc] at h2; cases h2
-        obtain ⟨hy1, hy2, hy3⟩ := hsub (doLoad cfg pol i w A p).1 o.oid p.name hx.inv
-        have hx' : StepOK cfg.bb w.objs (doLoad cfg pol i w A p).1
-            (recOf (doLoad cfg pol i w A p).1 a (.load p) none (doLoad cfg pol i w A p).2.1 (doLoad cfg pol i w A p).2.2.2) := by
-          have := hx
-          unfold recOfR at this
-          rw [hvs] at this
-          exact this
-        refine ⟨hy1, ?_, ?_⟩
-        · exact Chain.cons (creation_seg_ok true hx' (by intro t h; cases h))
-            (Chain.append hy2 (Chain.single (final_seg_ok hy1 a (.load p) _ (by intro t h; cases h) (by intro t h; cases h))))
-        · refine Frame.through_fresh hfresh ?_ hy3
-          rw [h1]; exact Frame.setO_fresh hfresh
+    simp only [execLoad, hn', Bool.false_eq_true, if_false, hc]
+    obtain ⟨hy1, hy2, hy3⟩ := hsub (doLoad cfg pol i w A p).1 o.oid p.name hx.inv
+    have hx' : StepOK cfg.bb w.objs (doLoad cfg pol i w A p).1
+        (recOf (doLoad cfg pol i w A p).1 a (.load p) none (doLoad cfg pol i w A p).2.1 (doLoad cfg pol i w A p).2.2.2) := by
+      have := hx
+      unfold recOfR at this
+      rw [hvs] at this
+      exact this
+    refine ⟨hy1, ?_, Keeps.trans (keeps_doLoad cfg pol i w A p) hy3⟩
+    exact Chain.cons (creation_seg_ok true hx' hopx)
+      (Chain.append hy2 (Chain.single (final_seg_ok hy1 a (.load p) _ hopx hops)))
 
-/-! ### reload_object (top level only) -/
+/-! ### reload_object -/
 
 theorem execReload_good {bb : Option Name} {sub : Sub} (hsub : GoodSub bb sub) {w : World}
     (hw : Inv w) {a : Oid} {A : Obj} (hA : getO w.objs a = some A) (t : Oid) :
-    Inv (execReload sub w a t).1 ∧ Chain bb w.objs (execReload sub w a t).2 (execReload sub w a t).1.objs := by
+    Inv (execReload sub w a t).1 ∧ Chain bb w.objs (execReload sub w a t).2 (execReload sub w a t).1.objs ∧
+    Keeps w.objs (execReload sub w a t).1.objs := by
   have hx := reload_ok (bb := bb) hw hA t
   have hvs : (doReload w t).2.2.1 = none := by
     unfold doReload
     cases getO w.objs t with
     | none => rfl
     | some T => simp only; split <;> rfl
+  have hk : Keeps w.objs (doReload w t).1.objs := by
+    unfold doReload
+    cases getO w.objs t with
+    | none => exact Keeps.refl _
+    | some T =>
+      simp only
+      split
+      · exact Keeps.refl _
+      · exact Keeps.setO _ _
   cases hcs : (doReload w t).2.1 with
-  | nil => simp only [execReload, hcs]; exact single_good a _ _ hx
+  | nil => simp only [execReload, hcs]; exact ⟨hx.inv, Chain.single (seg_of_recOf true hx), hk⟩
   | cons c cs =>
     cases cs with
-    | cons _ _ => simp only [execReload, hcs]; exact single_good a _ _ hx
+    | cons _ _ => simp only [execReload, hcs]; exact ⟨hx.inv, Chain.single (seg_of_recOf true hx), hk⟩
     | nil =>
       cases hm : c.made with
-      | none => simp only [execReload, hcs, hm]; exact single_good a _ _ hx
+      | none => simp only [execReload, hcs, hm]; exact ⟨hx.inv, Chain.single (seg_of_recOf true hx), hk⟩
       | some o =>
         simp only [execReload, hcs, hm]
-        obtain ⟨hy1, hy2, _⟩ := hsub (doReload w t).1 o.oid (scriptKey o.name) hx.inv
+        obtain ⟨hy1, hy2, hy3⟩ := hsub (doReload w t).1 o.oid (scriptKey (w.nameOf o)) hx.inv
         have hx' : StepOK bb w.objs (doReload w t).1
             (recOf (doReload w t).1 a (.reload t) none (doReload w t).2.1 (doReload w t).2.2.2) := by
           have := hx
           unfold recOfR at this
           rw [hvs] at this
           exact this
-        refine ⟨hy1, ?_⟩
+        refine ⟨hy1, ?_, Keeps.trans hk hy3⟩
         rw [← hcs]
         exact Chain.cons (creation_seg_ok true hx' (by intro t h; cases h))
           (Chain.append hy2 (Chain.single (final_seg_ok hy1 a (.reload t) _ (by intro t h; cases h) (by intro t h; cases h))))
 
-/-! ### the simple ops keep everybody else's euid -/
+/-! ### the simple ops remove nothing -/
 
-theorem frame_seteuidInt {w : World} {A : Obj} (n : Int) : Frame A.oid w.objs (doSeteuidInt w A n).1.objs := by
+theorem keeps_seteuidInt {w : World} {A : Obj} (n : Int) : Keeps w.objs (doSeteuidInt w A n).1.objs := by
   unfold doSeteuidInt
   split
-  · exact Frame.setO_self (o := { A with euid := none })
-  · exact Frame.refl _ _
+  · exact Keeps.setO _ _
+  · exact Keeps.refl _
 
-theorem frame_seteuidStr {w : World} {A : Obj} (pol : Policy) (i : Nat) (s : Name) :
-    Frame A.oid w.objs (doSeteuidStr pol i w A s).1.objs := by
+theorem keeps_seteuidStr {w : World} {A : Obj} (pol : Policy) (i : Nat) (s : Name) :
+    Keeps w.objs (doSeteuidStr pol i w A s).1.objs := by
   unfold doSeteuidStr
   by_cases h1 : pol.vs i A.oid s = .err
-  · simp only [h1, if_true]; exact Frame.refl _ _
+  · simp only [h1, if_true]; exact Keeps.refl _
   · simp only [h1, if_false]
     by_cases h2 : (pol.vs i A.oid s).approved = true
-    · simp only [h2, if_true]; exact Frame.setO_self (o := { A with euid := some s })
-    · simp only [h2]; exact Frame.refl _ _
+    · simp only [h2, if_true]; exact Keeps.setO _ _
+    · simp only [h2]; exact Keeps.refl _
 
-theorem frame_export {w : World} {A : Obj} (z : Oid) (t : Oid) : Frame z w.objs (doExport w A t).1.objs := by
+theorem keeps_export {w : World} {A : Obj} (t : Oid) : Keeps w.objs (doExport w A t).1.objs := by
   unfold doExport
-  cases hT : getO w.objs t with
-  | none => exact Frame.refl _ _
+  cases getO w.objs t with
+  | none => exact Keeps.refl _
   | some T =>
     simp only
     split
-    · exact Frame.refl _ _
+    · exact Keeps.refl _
     · split
-      · exact Frame.refl _ _
-      · have hTo := (getO_some hT).2
-        exact Frame.setO_euid (o := { T with uid := A.euid }) (T := T) (by simpa [hTo] using hT) rfl
+      · exact Keeps.refl _
+      · exact Keeps.setO _ _
 
 /-! ### clone -/
 
 theorem clonePre_none {w : World} {A : Obj} {newOid : Oid} {p : Path} (h : clonePre w A newOid p = none) :
-    newOid ∉ reservedOids ∧ getO w.objs newOid = none ∧ (p.name ∈ w.loaded ∨ getO w.objs p.oid = none) ∧
     ¬ (A.oid ≠ masterOid ∧ A.euid = none) := by
   unfold clonePre at h
   by_cases h1 : newOid ∈ reservedOids ∨ getO w.objs newOid ≠ none
@@ -221,25 +282,16 @@ theorem clonePre_none {w : World} {A : Obj} {newOid : Oid} {p : Path} (h : clone
   rw [if_neg h2] at h
   by_cases h3 : A.oid ≠ masterOid ∧ A.euid = none
   · rw [if_pos h3] at h; cases h
-  refine ⟨fun x => h1 (Or.inl x), ?_, ?_, h3⟩
-  · cases hg : getO w.objs newOid with
-    | none => rfl
-    | some _ => exact absurd (Or.inr (by simp [hg])) h1
-  · by_cases hl : p.name ∈ w.loaded
-    · exact Or.inl hl
-    · right
-      cases hg : getO w.objs p.oid with
-      | none => rfl
-      | some _ => exact absurd ⟨hl, by simp [hg]⟩ h2
+  exact h3
 
-/-- the clone itself, from the world `W` reached after the blueprint's create() script -/
-theorem clone_phase2 {cfg : Cfg} {pol : Policy} {i : Nat} {sub : Sub} (hsub : GoodSub cfg.bb sub) {W : World}
+/-- the clone itself, from the world `W` reached after the blueprint's create() script and the repeated euid test -/
+theorem cloneTail_good {cfg : Cfg} {pol : Policy} {i : Nat} {sub : Sub} (hsub : GoodSub cfg.bb sub) {W : World}
     (hW : Inv W) {A' : Obj} (hA' : getO W.objs A'.oid = some A') (hguard : ¬ (A'.oid ≠ masterOid ∧ A'.euid = none))
     (newOid : Oid) (p : Path) (first : Bool) :
     Inv (cloneTail cfg pol i sub W A'.oid A' newOid p first).1 ∧
     Chain cfg.bb W.objs (cloneTail cfg pol i sub W A'.oid A' newOid p first).2
       (cloneTail cfg pol i sub W A'.oid A' newOid p first).1.objs ∧
-    Frame newOid W.objs (cloneTail cfg pol i sub W A'.oid A' newOid p first).1.objs := by
+    Keeps W.objs (cloneTail cfg pol i sub W A'.oid A' newOid p first).1.objs := by
   let c := cloneSelf cfg pol i W A' newOid p
   let y := sub c.1 newOid (p.name ++ "#")
   have htl : cloneTail cfg pol i sub W A'.oid A' newOid p first =
@@ -271,8 +323,8 @@ theorem clone_phase2 {cfg : Cfg} {pol : Policy} {i : Nat} {sub : Sub} (hsub : Go
         have : c.2.1 = { name := p.name ++ "#" ++ toString W.cloneSeq, ans := some .err, made := none } := e2
         rw [this]; simp [madeOk]
     simp only [hc2, if_true]
-    refine ⟨hs.inv, Chain.single (StepOK_congr hs rfl rfl rfl rfl rfl rfl (Or.inl rfl)), ?_⟩
-    exact Frame.of_eq e1
+    refine ⟨hs.inv, Chain.single (StepOK_congr hs rfl rfl rfl rfl rfl rfl rfl (Or.inl rfl)), ?_⟩
+    exact Keeps.of_eq e1
   · obtain ⟨e1, e2, e3⟩ := create_ok (cfg := cfg) (w := { W with cloneSeq := W.cloneSeq + 1 }) (A := A')
       (oid := newOid) (bp := false) hcf
     have hg := giveUid_spec cfg A' (pol.cf i (p.name ++ "#" ++ toString W.cloneSeq))
@@ -311,23 +363,44 @@ theorem clone_phase2 {cfg : Cfg} {pol : Policy} {i : Nat} {sub : Sub} (hsub : Go
     refine ⟨hy1, ?_, ?_⟩
     · exact Chain.cons (creation_seg_ok first hs hopx)
         (Chain.append hy2 (Chain.single (final_seg_ok hy1 _ _ _ hopx hops)))
-    · refine Frame.trans ?_ hy3
+    · refine Keeps.trans ?_ hy3
       rw [hobjs]
-      exact Frame.setO_self (o := Obj.mk newOid _ _ _)
+      exact Keeps.setO _ _
 
-theorem plain_seg_ok {bb : Option Name} {w : World} (hw : Inv w) (a : Oid) (op : Op) (res : Res) (first : Bool)
-    (hop : ∀ t, op ≠ .exportUid t) (hop2 : ∀ s, op ≠ .seteuidStr s) :
-    StepOK bb w.objs w (seg w a op none [] (some res) first) :=
-  StepOK_congr (final_seg_ok (bb := bb) hw a op res hop hop2) rfl rfl rfl rfl rfl rfl (Or.inl rfl)
+theorem clonePhase2_good {cfg : Cfg} {pol : Policy} {i : Nat} {run : Run} {sub : Sub} (hrun : GoodRun cfg.bb run)
+    (hsub : GoodSub cfg.bb sub) {W : World} (hW : Inv W) (a : Oid) (newOid : Oid) (p : Path) (first : Bool) :
+    Inv (clonePhase2 cfg pol i run sub W a newOid p first).1 ∧
+    Chain cfg.bb W.objs (clonePhase2 cfg pol i run sub W a newOid p first).2
+      (clonePhase2 cfg pol i run sub W a newOid p first).1.objs ∧
+    Keeps W.objs (clonePhase2 cfg pol i run sub W a newOid p first).1.objs := by
+  have hopx : ∀ t, Op.clone newOid p ≠ .exportUid t := by intro t h; cases h
+  have hops : ∀ t, Op.clone newOid p ≠ .seteuidStr t := by intro t h; cases h
+  cases hA : getO W.objs a with
+  | none =>
+    simp only [clonePhase2, hA]
+    exact ⟨hW, Chain.single (plain_seg_ok hW _ _ _ _ hopx hops), Keeps.refl _⟩
+  | some A' =>
+    have hAo := (getO_some hA).2
+    subst hAo
+    by_cases hguard : A'.oid ≠ masterOid ∧ A'.euid = none
+    · simp only [clonePhase2, hA]
+      rw [if_pos hguard]
+      exact ⟨hW, Chain.single (plain_seg_ok hW _ _ _ _ hopx hops), Keeps.refl _⟩
+    · by_cases hv : p.name ∈ W.virt
+      · obtain ⟨h1, h2, h3⟩ := virtCore_good (pol := pol) (i := i) hrun hW hA hguard (.clone newOid p) first p true hopx hops
+        simp only [clonePhase2, hA]
+        rw [if_neg hguard, if_pos hv]
+        exact ⟨h1, Chain.append h2 (Chain.single (plain_seg_ok h1 _ _ _ _ hopx hops)), h3⟩
+      · simp only [clonePhase2, hA]
+        rw [if_neg hguard, if_neg hv]
+        exact cloneTail_good hsub hW hA hguard newOid p first
 
-theorem AllKeep.of_frame_fresh {o : Oid} {P Q : List Obj} (hfresh : getO P o = none) (h : Frame o P Q) : AllKeep P Q :=
-  AllKeep.through_fresh hfresh (AllKeep.refl P) h
-
-theorem execClone_good {cfg : Cfg} {pol : Policy} {i : Nat} {sub : Sub} (hsub : GoodSub cfg.bb sub) {w : World}
-    (hw : Inv w) {a : Oid} {A : Obj} (hA : getO w.objs a = some A) (newOid : Oid) (p : Path) :
-    Inv (execClone cfg pol i sub w a A newOid p).1 ∧
-    Chain cfg.bb w.objs (execClone cfg pol i sub w a A newOid p).2 (execClone cfg pol i sub w a A newOid p).1.objs ∧
-    Frame a w.objs (execClone cfg pol i sub w a A newOid p).1.objs := by
+theorem execClone_good {cfg : Cfg} {pol : Policy} {i : Nat} {run : Run} {sub : Sub} (hrun : GoodRun cfg.bb run)
+    (hsub : GoodSub cfg.bb sub) {w : World} (hw : Inv w) {a : Oid} {A : Obj} (hA : getO w.objs a = some A)
+    (newOid : Oid) (p : Path) :
+    Inv (execClone cfg pol i run sub w a A newOid p).1 ∧
+    Chain cfg.bb w.objs (execClone cfg pol i run sub w a A newOid p).2 (execClone cfg pol i run sub w a A newOid p).1.objs ∧
+    Keeps w.objs (execClone cfg pol i run sub w a A newOid p).1.objs := by
   have hAo := (getO_some hA).2
   subst hAo
   have hopx : ∀ t, Op.clone newOid p ≠ .exportUid t := by intro t h; cases h
@@ -335,29 +408,33 @@ theorem execClone_good {cfg : Cfg} {pol : Policy} {i : Nat} {sub : Sub} (hsub : 
   cases hpre : clonePre w A newOid p with
   | some r =>
     simp only [execClone, hpre]
-    exact ⟨hw, Chain.single (plain_seg_ok hw _ _ _ _ hopx hops), Frame.refl _ _⟩
+    exact ⟨hw, Chain.single (plain_seg_ok hw _ _ _ _ hopx hops), Keeps.refl _⟩
   | none =>
-    obtain ⟨hres, hfreshN, hbp, hguard⟩ := clonePre_none hpre
+    have hguard := clonePre_none hpre
     by_cases hl : p.name ∈ w.loaded
-    · have hb : cloneBp cfg pol i w A p = (w, [], true) := by simp [cloneBp, hl]
-      simp only [execClone, hpre, hb]
-      obtain ⟨h1, h2, h3⟩ := clone_phase2 (cfg := cfg) (pol := pol) (i := i) hsub hw hA hguard newOid p true
-      exact ⟨h1, h2, (AllKeep.of_frame_fresh hfreshN h3).frame _⟩
-    · have hfreshP : getO w.objs p.oid = none := by
-        rcases hbp with h | h
-        · exact absurd h hl
-        · exact h
-      by_cases hex : p.exists = false
-      · have hb : cloneBp cfg pol i w A p = (w, [], false) := by simp [cloneBp, hl, hex]
-        simp only [execClone, hpre, hb]
-        exact ⟨hw, Chain.single (plain_seg_ok hw _ _ _ _ hopx hops), Frame.refl _ _⟩
+    · simp only [execClone, hpre]
+      rw [if_pos hl]
+      exact clonePhase2_good hrun hsub hw _ newOid p true
+    · by_cases hex : p.exists = false
+      · obtain ⟨h1, h2, h3⟩ := virtCore_good (pol := pol) (i := i) hrun hw hA hguard (.clone newOid p) true p false hopx hops
+        simp only [execClone, hpre]
+        rw [if_neg hl, if_pos hex]
+        cases hout : (virtCore pol i run w A.oid (.clone newOid p) true p false).2.2 with
+        | obj v =>
+          simp only
+          obtain ⟨h4, h5, h6⟩ := clonePhase2_good (cfg := cfg) (pol := pol) (i := i) hrun hsub h1 A.oid newOid p false
+          exact ⟨h4, Chain.append h2 h5, Keeps.trans h3 h6⟩
+        | zero =>
+          simp only
+          exact ⟨h1, Chain.append h2 (Chain.single (plain_seg_ok h1 _ _ _ _ hopx hops)), h3⟩
+        | err =>
+          simp only
+          exact ⟨h1, Chain.append h2 (Chain.single (plain_seg_ok h1 _ _ _ _ hopx hops)), h3⟩
       · have hex' : p.exists = true := by simpa using hex
-        have hb : cloneBp cfg pol i w A p = ((create cfg pol i w A p.oid p.name true).1,
-            [(create cfg pol i w A p.oid p.name true).2.1], (create cfg pol i w A p.oid p.name true).2.2) := by
-          simp [cloneBp, hl, hex']
         by_cases hcf : pol.cf i p.name = .err
         · obtain ⟨e1, e2, e3, _⟩ := create_err (cfg := cfg) (w := w) (A := A) (oid := p.oid) (bp := true) hcf
-          simp only [execClone, hpre, hb, e3, if_true, List.isEmpty_cons, Bool.false_eq_true, if_false]
+          simp only [execClone, hpre]
+          rw [if_neg hl, if_neg hex, if_pos e3]
           have hs : StepOK cfg.bb w.objs (create cfg pol i w A p.oid p.name true).1
               (recOf (create cfg pol i w A p.oid p.name true).1 A.oid (.clone newOid p) none
                 [(create cfg pol i w A p.oid p.name true).2.1] (.err .policy)) := by
@@ -374,7 +451,7 @@ theorem execClone_good {cfg : Cfg} {pol : Policy} {i : Nat} {sub : Sub} (hsub : 
               simp at hc
               subst hc
               rw [e2]; simp [madeOk]
-          exact ⟨hs.inv, Chain.single hs, Frame.of_eq e1⟩
+          exact ⟨hs.inv, Chain.single (seg_of_recOf true hs), Keeps.of_eq e1⟩
         · obtain ⟨e1, e2, e3⟩ := create_ok (cfg := cfg) (w := w) (A := A) (oid := p.oid) (bp := true) hcf
           have hg := giveUid_spec cfg A (pol.cf i p.name)
           have hs : StepOK cfg.bb w.objs (create cfg pol i w A p.oid p.name true).1
@@ -401,81 +478,66 @@ theorem execClone_good {cfg : Cfg} {pol : Policy} {i : Nat} {sub : Sub} (hsub : 
               exact madeOk_created (by simp [recOf, isCreatingOp]) (by simpa [recOf] using hA)
                 (by simpa [recOf] using guard_or hguard) hcf hg.2
           obtain ⟨hy1, hy2, hy3⟩ := hsub (create cfg pol i w A p.oid p.name true).1 p.oid p.name hs.inv
-          have hkeep : AllKeep w.objs (sub (create cfg pol i w A p.oid p.name true).1 p.oid p.name).1.objs := by
-            refine AllKeep.through_fresh hfreshP ?_ hy3
-            rw [e1]
-            exact AllKeep.setO_fresh (o := Obj.mk p.oid _ _ _) hfreshP
-          obtain ⟨A', hA', hA'e⟩ := hkeep A.oid A hA
-          have hA'o : A'.oid = A.oid := (getO_some hA').2
-          have hguard' : ¬ (A'.oid ≠ masterOid ∧ A'.euid = none) := by rw [hA'o, hA'e]; exact hguard
-          have hA'' : getO (sub (create cfg pol i w A p.oid p.name true).1 p.oid p.name).1.objs A'.oid = some A' := by
-            rw [hA'o]; exact hA'
-          obtain ⟨h1, h2, h3⟩ := clone_phase2 (cfg := cfg) (pol := pol) (i := i) hsub hy1 hA'' hguard' newOid p false
-          rw [hA'o] at h1 h2 h3
-          simp only [execClone, hpre, hb, e3, Bool.true_eq_false, if_false, hA', Option.getD_some]
-          refine ⟨h1, ?_, ?_⟩
-          · exact Chain.cons (creation_seg_ok true hs hopx) (Chain.append hy2 h2)
-          · intro x X hx hX
-            obtain ⟨X1, h4, h5⟩ := hkeep x X hX
-            have hxn : x ≠ newOid := by
-              intro e; rw [e] at hX; rw [hfreshN] at hX; cases hX
-            obtain ⟨X2, h6, h7⟩ := h3 x X1 hxn h4
-            exact ⟨X2, h6, h7.trans h5⟩
+          obtain ⟨h4, h5, h6⟩ := clonePhase2_good (cfg := cfg) (pol := pol) (i := i) hrun hsub hy1 A.oid newOid p false
+          simp only [execClone, hpre]
+          rw [if_neg hl, if_neg hex, if_neg (by rw [e3]; simp)]
+          refine ⟨h4, ?_, ?_⟩
+          · exact Chain.cons (creation_seg_ok true hs hopx) (Chain.append hy2 h5)
+          · refine Keeps.trans ?_ (Keeps.trans hy3 h6)
+            rw [e1]; exact Keeps.setO _ _
 
 /-! ### one op, and any fuel -/
 
-theorem execWith_good {cfg : Cfg} {pol : Policy} {i : Nat} {sub : Sub} (hsub : GoodSub cfg.bb sub)
-    (nested : Bool) (w : World) (a : Oid) (op : Op) (hw : Inv w) :
-    Inv (execWith cfg pol i sub nested w a op).1 ∧
-    Chain cfg.bb w.objs (execWith cfg pol i sub nested w a op).2 (execWith cfg pol i sub nested w a op).1.objs ∧
-    (nested = true → Frame a w.objs (execWith cfg pol i sub nested w a op).1.objs) := by
+theorem execWith_good {cfg : Cfg} {pol : Policy} {i : Nat} {run : Run} {sub : Sub} (hrun : GoodRun cfg.bb run)
+    (hsub : GoodSub cfg.bb sub) (nested : Bool) (w : World) (a : Oid) (op : Op) (hw : Inv w) :
+    Inv (execWith cfg pol i run sub nested w a op).1 ∧
+    Chain cfg.bb w.objs (execWith cfg pol i run sub nested w a op).2 (execWith cfg pol i run sub nested w a op).1.objs ∧
+    (nested = true → Keeps w.objs (execWith cfg pol i run sub nested w a op).1.objs) := by
   cases hA : getO w.objs a with
   | none =>
     simp only [execWith, hA]
-    exact ⟨hw, Chain.single (actor_missing_ok hw a op hA), fun _ => Frame.refl _ _⟩
+    exact ⟨hw, Chain.single (StepOK_congr (actor_missing_ok hw a op hA) rfl rfl rfl rfl rfl rfl rfl (Or.inl rfl)),
+      fun _ => Keeps.refl _⟩
   | some A =>
-    have hAo := (getO_some hA).2
     cases op with
     | seteuidInt n =>
       simp only [execWith, hA]
       have := single_good a (.seteuidInt n) _ (seteuidInt_ok (bb := cfg.bb) hw hA n)
-      exact ⟨this.1, this.2, fun _ => hAo ▸ frame_seteuidInt n⟩
+      exact ⟨this.1, this.2, fun _ => keeps_seteuidInt n⟩
     | seteuidStr s =>
       simp only [execWith, hA]
       have := single_good a (.seteuidStr s) _ (seteuidStr_ok (bb := cfg.bb) hw hA pol i s)
-      exact ⟨this.1, this.2, fun _ => hAo ▸ frame_seteuidStr pol i s⟩
+      exact ⟨this.1, this.2, fun _ => keeps_seteuidStr pol i s⟩
     | exportUid t =>
       simp only [execWith, hA]
       have := single_good a (.exportUid t) _ (export_ok (bb := cfg.bb) hw hA t)
-      exact ⟨this.1, this.2, fun _ => frame_export a t⟩
+      exact ⟨this.1, this.2, fun _ => keeps_export t⟩
     | load p =>
       simp only [execWith, hA]
-      have := execLoad_good (pol := pol) (i := i) hsub hw hA p
+      have := execLoad_good (pol := pol) (i := i) hrun hsub hw hA p
       exact ⟨this.1, this.2.1, fun _ => this.2.2⟩
     | clone o p =>
       simp only [execWith, hA]
-      have := execClone_good (pol := pol) (i := i) hsub hw hA o p
+      have := execClone_good (pol := pol) (i := i) hrun hsub hw hA o p
       exact ⟨this.1, this.2.1, fun _ => this.2.2⟩
     | dest t =>
       cases nested with
       | true =>
         simp only [execWith, hA, if_true]
         exact ⟨hw, Chain.single (plain_seg_ok hw _ _ _ _ (by intro t h; cases h) (by intro t h; cases h)),
-          fun _ => Frame.refl _ _⟩
+          fun _ => Keeps.refl _⟩
       | false =>
         simp only [execWith, hA, Bool.false_eq_true, if_false]
         have := single_good a (.dest t) _ (dest_ok (bb := cfg.bb) hw hA t)
         exact ⟨this.1, this.2, fun h => by cases h⟩
     | reload t =>
-      cases nested with
-      | true =>
-        simp only [execWith, hA, if_true]
+      by_cases hr : nested = true ∧ reloadRefused pol i w t = true
+      · simp only [execWith, hA, hr, and_self, if_true]
         exact ⟨hw, Chain.single (plain_seg_ok hw _ _ _ _ (by intro t h; cases h) (by intro t h; cases h)),
-          fun _ => Frame.refl _ _⟩
-      | false =>
-        simp only [execWith, hA, Bool.false_eq_true, if_false]
+          fun _ => Keeps.refl _⟩
+      · simp only [execWith, hA, hr, if_false]
         have := execReload_good (bb := cfg.bb) hsub hw hA t
-        exact ⟨this.1, this.2, fun h => by cases h⟩
+        exact ⟨this.1, this.2.1, fun _ => this.2.2⟩
 
 theorem exec_good (cfg : Cfg) (pol : Policy) (i : Nat) : ∀ fuel, GoodExec cfg.bb (exec cfg pol i fuel) := by
   intro fuel
@@ -483,10 +545,10 @@ theorem exec_good (cfg : Cfg) (pol : Policy) (i : Nat) : ∀ fuel, GoodExec cfg.
   | zero =>
     intro nested w a op hw
     simp only [exec]
-    exact execWith_good (goodSub_skip cfg.bb) nested w a op hw
+    exact execWith_good (goodRun_skip cfg.bb) (goodSub_skip cfg.bb) nested w a op hw
   | succ f ih =>
     intro nested w a op hw
     simp only [exec]
-    exact execWith_good (goodSub_script ih (pol.script i)) nested w a op hw
+    exact execWith_good (goodRun_of_exec ih) (goodSub_script ih (pol.script i)) nested w a op hw
 
 end NV.C20
